@@ -65,3 +65,27 @@ Example ident_ex :
   = Some [92; 117; 48; 48; 69; 57; 92; 117; 123; 50; 48; 66; 66; 55; 125; 120]
   /\ ident_value [92; 117; 48; 48; 69; 57; 92; 117; 123; 50; 48; 66; 66; 55; 125; 120] = Some [233; 55362; 57271; 120].
 Proof. vm_compute. split; reflexivity. Qed.
+
+From V Require Import C01.NumProofs2.
+(* boundary values: FormatFloat's text is in float_text and the model prints what esbuild prints
+   (pretty / minify-whitespace) *)
+Example b_1e21 : float_text_b [49; 101; 43; 50; 49] = true /\ fst (printNonNegativeFloat false 4921056587992461136 [49; 101; 43; 50; 49]) = [49; 101; 50; 49] /\ fst (printNonNegativeFloat true 4921056587992461136 [49; 101; 43; 50; 49]) = [49; 101; 50; 49].
+Proof. vm_compute. repeat split; reflexivity. Qed.
+Example b_below_1e21 : float_text_b [57; 46; 57; 57; 57; 57; 57; 57; 57; 57; 57; 57; 57; 57; 57; 57; 57; 101; 43; 50; 48] = true /\ fst (printNonNegativeFloat false 4921056587992461135 [57; 46; 57; 57; 57; 57; 57; 57; 57; 57; 57; 57; 57; 57; 57; 57; 57; 101; 43; 50; 48]) = [57; 57; 57; 57; 57; 57; 57; 57; 57; 57; 57; 57; 57; 57; 57; 57; 101; 53] /\ fst (printNonNegativeFloat true 4921056587992461135 [57; 46; 57; 57; 57; 57; 57; 57; 57; 57; 57; 57; 57; 57; 57; 57; 57; 101; 43; 50; 48]) = [57; 57; 57; 57; 57; 57; 57; 57; 57; 57; 57; 57; 57; 57; 57; 57; 101; 53].
+Proof. vm_compute. repeat split; reflexivity. Qed.
+Example b_2p53 : float_text_b [57; 46; 48; 48; 55; 49; 57; 57; 50; 53; 52; 55; 52; 48; 57; 57; 50; 101; 43; 49; 53] = true /\ fst (printNonNegativeFloat false 4845873199050653696 [57; 46; 48; 48; 55; 49; 57; 57; 50; 53; 52; 55; 52; 48; 57; 57; 50; 101; 43; 49; 53]) = [57; 48; 48; 55; 49; 57; 57; 50; 53; 52; 55; 52; 48; 57; 57; 50] /\ fst (printNonNegativeFloat true 4845873199050653696 [57; 46; 48; 48; 55; 49; 57; 57; 50; 53; 52; 55; 52; 48; 57; 57; 50; 101; 43; 49; 53]) = [57; 48; 48; 55; 49; 57; 57; 50; 53; 52; 55; 52; 48; 57; 57; 50].
+Proof. vm_compute. repeat split; reflexivity. Qed.
+Example b_min_subnormal : float_text_b [53; 101; 45; 51; 50; 52] = true /\ fst (printNonNegativeFloat false 1 [53; 101; 45; 51; 50; 52]) = [53; 101; 45; 51; 50; 52] /\ fst (printNonNegativeFloat true 1 [53; 101; 45; 51; 50; 52]) = [53; 101; 45; 51; 50; 52].
+Proof. vm_compute. repeat split; reflexivity. Qed.
+Example b_min_normal : float_text_b [50; 46; 50; 50; 53; 48; 55; 51; 56; 53; 56; 53; 48; 55; 50; 48; 49; 52; 101; 45; 51; 48; 56] = true /\ fst (printNonNegativeFloat false 4503599627370496 [50; 46; 50; 50; 53; 48; 55; 51; 56; 53; 56; 53; 48; 55; 50; 48; 49; 52; 101; 45; 51; 48; 56]) = [50; 50; 50; 53; 48; 55; 51; 56; 53; 56; 53; 48; 55; 50; 48; 49; 52; 101; 45; 51; 50; 52] /\ fst (printNonNegativeFloat true 4503599627370496 [50; 46; 50; 50; 53; 48; 55; 51; 56; 53; 56; 53; 48; 55; 50; 48; 49; 52; 101; 45; 51; 48; 56]) = [50; 50; 50; 53; 48; 55; 51; 56; 53; 56; 53; 48; 55; 50; 48; 49; 52; 101; 45; 51; 50; 52].
+Proof. vm_compute. repeat split; reflexivity. Qed.
+Example b_1e_6 : float_text_b [49; 101; 45; 48; 54] = true /\ fst (printNonNegativeFloat false 4517329193108106637 [49; 101; 45; 48; 54]) = [49; 101; 45; 54] /\ fst (printNonNegativeFloat true 4517329193108106637 [49; 101; 45; 48; 54]) = [49; 101; 45; 54].
+Proof. vm_compute. repeat split; reflexivity. Qed.
+Example b_0_000123 : float_text_b [48; 46; 48; 48; 48; 49; 50; 51] = true /\ fst (printNonNegativeFloat false 4548669923058963014 [48; 46; 48; 48; 48; 49; 50; 51]) = [49; 50; 51; 101; 45; 54] /\ fst (printNonNegativeFloat true 4548669923058963014 [48; 46; 48; 48; 48; 49; 50; 51]) = [49; 50; 51; 101; 45; 54].
+Proof. vm_compute. repeat split; reflexivity. Qed.
+Example b_half : float_text_b [48; 46; 53] = true /\ fst (printNonNegativeFloat false 4602678819172646912 [48; 46; 53]) = [48; 46; 53] /\ fst (printNonNegativeFloat true 4602678819172646912 [48; 46; 53]) = [46; 53].
+Proof. vm_compute. repeat split; reflexivity. Qed.
+Example b_1000 : float_text_b [49; 48; 48; 48] = true /\ fst (printNonNegativeFloat false 4652007308841189376 [49; 48; 48; 48]) = [49; 101; 51] /\ fst (printNonNegativeFloat true 4652007308841189376 [49; 48; 48; 48]) = [49; 101; 51].
+Proof. vm_compute. repeat split; reflexivity. Qed.
+Example b_999 : float_text_b [57; 57; 57] = true /\ fst (printNonNegativeFloat false 4651998512748167168 [57; 57; 57]) = [57; 57; 57] /\ fst (printNonNegativeFloat true 4651998512748167168 [57; 57; 57]) = [57; 57; 57].
+Proof. vm_compute. repeat split; reflexivity. Qed.
